@@ -161,6 +161,7 @@ type Engine struct {
 	curFn                        string
 	fs                           []*fsEntry
 	joins                        map[string]joinPart
+	builders                     map[*any]*string
 	inHarness                    bool
 	clockBudget                  string
 	appendSpare                  int
@@ -176,7 +177,7 @@ func (e *Engine) resetPath(prefix []decision) {
 	e.prefix, e.decisions, e.pending, e.fresh, e.clockN, e.occ, e.Inputs = prefix, nil, nil, 0, 0, nil, nil
 	e.forkCount = 0
 	e.clockBudget, e.appendSpare, e.appendSpareChosen = "", 0, -1
-	e.fs, e.joins = nil, map[string]joinPart{}
+	e.fs, e.joins, e.builders = nil, map[string]joinPart{}, map[*any]*string{}
 	globals = map[*ssa.Global]Ptr{}
 	allocEpoch, epochCtr, frozenAt = map[*any]int{}, 0, -1
 	msgOf, tsOf = map[string]*msgProv{}, map[*any]TimeV{}
@@ -962,6 +963,26 @@ func (e *Engine) eval(f *frame, v ssa.Value) any {
 		return e.binop(x.Op, e.get(f, x.X), e.get(f, x.Y), x)
 	case *ssa.Call:
 		return e.doCall(f, x.Common())
+	case *ssa.Index:
+		base, idx := e.get(f, x.X), e.get(f, x.Index)
+		switch b := base.(type) {
+		case string, SymStr: // s[i] on a string: a byte, with the bounds obligation
+			if bs, ok := b.(string); ok {
+				if i, ok := idx.(int64); ok {
+					if i < 0 || int(i) >= len(bs) {
+						e.panicObligation("PANIC index out of range at " + relPath(f.fn.Prog.Fset.Position(x.Pos()).String()))
+					}
+					return int64(bs[i])
+				}
+			}
+			se, ie := strE(b), intE(idx)
+			e.oblige(fmt.Sprintf("(and (<= 0 %s) (< %s (str.len %s)))", ie, ie, se), "PANIC index out of range at "+relPath(f.fn.Prog.Fset.Position(x.Pos()).String()))
+			return SymInt{"(str.to_code (str.at " + se + " " + ie + "))"}
+		case StructV: // array value
+			i := e.concretizeIndex(idx, len(b), f, x.Pos())
+			return b[i]
+		}
+		panic(fmt.Sprintf("Index on %T", base))
 	case *ssa.Extract:
 		return e.get(f, x.Tuple).(Tuple)[x.Index]
 	case *ssa.MakeInterface:
